@@ -435,7 +435,7 @@ theorem recorded_recovery_temps_truncated :
 
 /-! ### non-vacuity -/
 
-example : CrashTraces.all.length = 46 := by decide
+example : CrashTraces.all.length = 45 := by decide
 example : (crashStates CrashTraces.sc_configure_h2_ninja.fs0 CrashTraces.sc_configure_h2_ninja.trace).length > 10 := by
   decide +kernel
 /-- the partial theorem's hypotheses hold at some crash point where a state file is mid-update -/
